@@ -793,3 +793,36 @@ def rule_consume(prog, res, fname, mode, rule="R-CONSUME"):
             res.oblige(rule, inst, True, detail, f.loc(s))
         n += 1
     return n
+
+
+def rule_drain_after_stop(prog, res, fname, pass_names, rule="R-DRAIN"):
+    """A consumer worker makes one more pass over its input after it has seen
+    its stop request: every path from a read of self->is_stopping to the
+    worker's exit passes a call that consumes input (the producer commits its
+    last frames and then raises the flag; a worker that reads the flag after
+    its last pass and leaves strands those frames in its input ring)."""
+    f = prog.func(fname)
+    res.touched(f)
+    reads = []
+    for b, i, s in f.all_stmts():
+        wr = {id(lv) for lv, op, rhs, w in ir.writes_of(s)}
+        for y in ir.walk(s):
+            if y.get("k") == "mem" and y.get("f") == "is_stopping" and id(y) not in wr and (ir.ap(y) or "").startswith(f.params[0]["n"] + "->"):
+                reads.append((b.id, i, s))
+                break
+    if not reads:
+        raise AnalysisBroken("%s no longer reads its stop flag" % fname)
+    n = 0
+    for bid, i, s in reads:
+        def consumes(q):
+            return any(c.get("fn") in pass_names for c in ir.calls_in(q)) or paths.stmt_reaches(prog, f, q, set(pass_names))
+        ok, w = paths.all_paths_pass(f, (bid, i), "exit", consumes)
+        n += 1
+        inst = "%s: after the stop flag was read (line %s) the input is consumed once more before the worker leaves" % (fname, s.get("line"))
+        if ok:
+            res.oblige(rule, inst, True, "%s on every path to the exit" % "/".join(sorted(pass_names)), f.loc(s))
+        else:
+            res.fail(rule, inst, "%s|%s" % (rule, fname), f.loc(s),
+                     "%s can read its stop flag and leave without another pass over its input: frames the producer committed just before raising the flag stay in the ring, are missing from this acquisition and reappear in the next one" % fname,
+                     {"path_blocks": w})
+    return n
